@@ -117,7 +117,12 @@ where
     });
     drop(local);
     drop(rt);
-    out.map_err(|e| format!("scenario main task failed: {e}"))
+    out.map_err(|e| format!("scenario main task failed: {}", strip_task_id(&e.to_string())))
+}
+
+/// Task ids are process-global counters: not part of a reproducible observation.
+fn strip_task_id(s: &str) -> String {
+    s.chars().filter(|c| !c.is_ascii_digit()).collect()
 }
 
 /// Like [`block_on_paused`] for `Send` futures: spawned on the runtime proper (the scheduler
@@ -137,7 +142,7 @@ where
         h.await
     });
     drop(rt);
-    out.map_err(|e| format!("scenario main task failed: {e}"))
+    out.map_err(|e| format!("scenario main task failed: {}", strip_task_id(&e.to_string())))
 }
 
 pub struct ExecResult<O> {
@@ -187,6 +192,7 @@ pub fn execute<S: Scenario>(s: &S, prefix: &[u16]) -> ExecResult<S::Obs> {
     elvis_core::verif::set_frame_hook(None);
     elvis_core::verif::set_tap_hook(None);
     elvis_core::verif::set_rand_hook(None);
+    teardown();
     let ex = EXEC.with(|e| e.borrow_mut().take()).unwrap();
     let panics = crate::take_panics();
     let mut violations = vec![];
@@ -203,7 +209,16 @@ pub fn execute<S: Scenario>(s: &S, prefix: &[u16]) -> ExecResult<S::Obs> {
         }
         if s.panic_is_violation(&p) {
             // the location names the mechanism; the message (first line) is the discriminator
-            let msg: String = p.message.lines().next().unwrap_or("").chars().take(80).collect();
+            // (digits removed: task ids and the like are not reproducible)
+            let msg: String = p
+                .message
+                .lines()
+                .next()
+                .unwrap_or("")
+                .chars()
+                .filter(|c| !c.is_ascii_digit())
+                .take(80)
+                .collect();
             violations.push(Violation::panic(&msg, &p));
         }
     }
@@ -635,6 +650,8 @@ thread_local! {
     static WIRE: RefCell<Vec<WireFrame>> = const { RefCell::new(Vec::new()) };
     static TAPS: RefCell<Vec<TapRecord>> = const { RefCell::new(Vec::new()) };
     static NETS: RefCell<Vec<usize>> = const { RefCell::new(Vec::new()) };
+    static NET_ARCS: RefCell<Vec<std::sync::Arc<elvis_core::Network>>> = const { RefCell::new(Vec::new()) };
+    static MACHINE_ARCS: RefCell<Vec<std::sync::Arc<elvis_core::Machine>>> = const { RefCell::new(Vec::new()) };
     static T0: RefCell<Option<tokio::time::Instant>> = const { RefCell::new(None) };
 }
 
@@ -673,6 +690,25 @@ pub fn register_networks(nets: &[&std::sync::Arc<elvis_core::Network>]) {
             n.push(std::sync::Arc::as_ptr(a) as usize);
         }
     });
+    NET_ARCS.with(|n| n.borrow_mut().extend(nets.iter().map(|a| (*a).clone())));
+}
+
+/// Registers the machines of this execution so that their reference cycles (machine <-> tap)
+/// can be broken when the execution is over; without this every execution leaks its whole
+/// simulation.
+pub fn register_machines(machines: &[std::sync::Arc<elvis_core::Machine>]) {
+    MACHINE_ARCS.with(|m| m.borrow_mut().extend(machines.iter().cloned()));
+}
+
+fn teardown() {
+    for m in MACHINE_ARCS.with(|m| std::mem::take(&mut *m.borrow_mut())) {
+        if let Some(p) = m.protocol::<elvis_core::protocols::Pci>() {
+            p.verif_teardown();
+        }
+    }
+    for n in NET_ARCS.with(|n| std::mem::take(&mut *n.borrow_mut())) {
+        n.verif_teardown();
+    }
 }
 
 /// Installs frame and tap hooks that log everything and ask `policy` for the verdict of each
